@@ -14,7 +14,7 @@ from vf.checks import c11
 
 
 def name_of(cfg):
-    return (f"{cfg.get('gmodel', 'gpt2l')}/pp{cfg.get('pp', 1)}xdp{cfg['dp']}xmp{cfg['mp']}/fdt={cfg['kfac'].get('factor_dtype')}/save@{cfg['c']}/"
+    return (f"{cfg.get('gmodel', 'gpt2l')}/pp{cfg.get('pp', 1)}xdp{cfg['dp']}xmp{cfg['mp']}/fdt={cfg['kfac'].get('factor_dtype')}/plain_stage={cfg.get('plain_stage')}/save@{cfg['c']}/"
             f"{'dir' if cfg.get('dir') else 'mem'}/inverses="
             f"{cfg['compute']}/bias={cfg.get('bias', True)}/F="
             f"{cfg['kfac'].get('factor_update_steps', 1)}/I="
@@ -210,6 +210,8 @@ def check_world(cfg, w, stats=None):
     for s in range(pp):
         if vs:
             break
+        if cfg.get('plain_stage') == s:
+            continue  # nothing registered there; its saved state was checked
         vs = [(k, f'stage {s}: {t}') for k, t in
               check(cfg, stage_view(cfg, w, s), stats)]
     return vs
@@ -276,14 +278,14 @@ def explore_case(part, item):
 
 
 def mk(dp, mp, c, T, dirmode, compute, seed, f=1, inv=1, bias=True,
-       gm='gpt2l', pp=1, fdt=None):
+       gm='gpt2l', pp=1, fdt=None, plain=None):
     kk = dict(damping=0.05, factor_decay=0.5, kl_clip=1e30, lr=0.1,
               allreduce_bucket_cap_mb=25.0, factor_update_steps=f,
               inv_update_steps=inv)
     if fdt:
         kk['factor_dtype'] = fdt
     return {'dp': dp, 'mp': mp, 'pp': pp, 'bias': bias, 'batch': 2,
-            'seed': seed,
+            'seed': seed, 'plain_stage': plain,
             'kfac': kk, 'loss_mult': 4.0, 'c': c, 'T': T, 'dir': dirmode,
             'gmodel': gm,
             'compute': compute,
@@ -317,6 +319,10 @@ def configs(thorough, seed):
                                                  if thorough else []),
             (0, 1, T), (False, True)):
         out.append(mk(dp, mp, c, T, dirmode, True, seed, pp=pp))
+    # a pipeline stage that registers no K-FAC layer still takes part in
+    # saving and loading
+    for plain, c, dirmode in itertools.product((0, 1), (1, T), (False, True)):
+        out.append(mk(2, 1, c, T, dirmode, True, seed, pp=2, plain=plain))
     return out
 
 
